@@ -343,9 +343,20 @@ func main() {
 		fi := a.Cfg.N // index of the fee collector in Bal
 		o := Obs{Code: out.Code, Fee: fee, Required: required,
 			SignerDelta: pa - pb, FeeDelta: after.Bal[fi] - before.Bal[fi]}
+		// the payer's own account is either a named one or part of the OUT/ODD buckets (every other address)
+		pi := a.ID(payer) - 1
+		if pi < 0 {
+			pi = a.Cfg.N + 4
+			if len(payer) != sdk.AddrLen {
+				pi = a.Cfg.N + 5
+			}
+		}
 		for i := range after.Bal {
 			if i != fi {
 				d := after.Bal[i] - before.Bal[i]
+				if i == pi {
+					d -= pa - pb
+				}
 				if d < 0 {
 					d = -d
 				}
